@@ -178,7 +178,7 @@ def input_prefs(ts, salt=0, objs=()):
         if not name.startswith(("in.", "pre.")) or not z3.is_real(c) or name.endswith("'"):
             continue
         if ".pd" in name:
-            val = 0.1875 if name.startswith("pre.") else 0.125
+            val = (0.1875 if name.startswith("pre.") else 0.125) + 0.015625 * (k % 3)
         elif ".nsigma" in name:
             val = 2.5 if name.startswith("pre.") else 2.0
         elif name.startswith("pre."):
@@ -1408,6 +1408,10 @@ def replay(cex):
         outs, errs, changed = real_clone(i["model"], i["entry"], i["req"], i["mut"], i["q"])
         rep = len(set(outs)) > 1 if kind == "sasview-clone" else i["watch"] in changed
         detail = {"exceptions": errs, "changed": changed}
+    elif kind in ("sasview-shared", "o2-sasview-shared"):
+        outs, errs, changed = real_shared(i["model"], i["entry"], i["A"], i["B"], i["R"], i["q"])
+        rep = len(set(outs)) > 1 if kind == "sasview-shared" else i["watch"] in changed
+        detail = {"exceptions": errs, "changed": changed}
     elif kind == "direct":
         outs, errs = real_direct(i["kind"], i["model"], i["dim"], i["smear"], i["pars"], i["pre"])
         rep, detail = len(set(outs)) > 1, {"exceptions": errs}
@@ -1493,6 +1497,10 @@ def configs(chk):
         ("sphere", "1d", "radius", "evalDistribution"),
         ("cylinder", "2d", "length", "calculate_Iq"),
     ]]
+    items += [("sasview-shared", c) for c in [
+        ("cylinder", "1d", "radius", "length", "evalDistribution"),
+        ("sphere", "1d", "radius", None, "calculate_Iq"),
+    ]]
     items += [("direct", c) for c in [
         ("sphere", "1d", "radius", 2, "DirectModel", False),
         ("sphere", "1d", None, 2, "DirectModel", True),
@@ -1526,7 +1534,7 @@ def configs(chk):
 def _units():
     return {"dll": unit_dll, "py": unit_py, "comp": unit_comp, "sasview": unit_sasview,
             "direct": unit_direct, "template": unit_template, "validate": unit_validate,
-            "sasview-clone": unit_sasview_clone}
+            "sasview-clone": unit_sasview_clone, "sasview-shared": unit_sasview_shared}
 
 
 def _label(item):
@@ -1605,10 +1613,10 @@ def run(chk):
     items = configs(chk)
     if getattr(chk, "only", None):
         items = [it for it in items if chk.only in _label(it)]
-    need = sorted({cfg[0] for kind, cfg in items if kind in ("dll", "sasview", "direct", "sasview-clone")})
+    need = sorted({cfg[0] for kind, cfg in items if kind in ("dll", "sasview", "direct", "sasview-clone", "sasview-shared")})
     pmap(_prebuild, need)
     # long units first
-    order = {"sasview": 0, "direct": 1, "comp": 2, "dll": 3, "py": 4, "template": 5, "validate": 6, "sasview-clone": 0}
+    order = {"sasview": 0, "direct": 1, "comp": 2, "dll": 3, "py": 4, "template": 5, "validate": 6, "sasview-clone": 0, "sasview-shared": 0}
     items.sort(key=lambda it: (order[it[0]], 0 if "call_Fq" in _label(it) else 1))
     chk.add(pmap(_dispatch, items))
     chk.extra = {
@@ -1863,6 +1871,178 @@ def _o2_clone_handler(ctx):
                                                       (changed.get(wlabel) or diffs)[:3]),
                     "inputs": {"replay": "o2-sasview-clone", "model": ctx["name"], "dim": ctx["dim"],
                                "entry": ctx["entry"], "req": jsonable(req), "mut": jsonable(mut), "q": q,
+                               "watch": wlabel},
+                    "detail": {"exceptions": errs}, "block": None}
+        return handler
+    return mk
+
+
+# --------------------------------------------------------------------------
+# family D'': one Dispersion object handed to set_dispersion more than once
+# (two parameters of one model / one parameter of two instances) must not alias
+# the stored records: later setParam('<A>.width/npts/nsigmas') is history for B.
+
+SHARED_OPS = {0: "fresh model, one disperser object per set_dispersion call",
+              6: "ONE GaussianDispersion object given to set_dispersion twice, then "
+                 "setParam('<A>.width/.npts/.nsigmas') (intermediate values, then the final ones)"}
+
+
+def _gauss(d):
+    return weights.GaussianDispersion(npts=d["npts"], width=d["width"], nsigmas=d["nsigmas"])
+
+
+def shared_reqs(info, dim, A, B):
+    req = sasview_reqs(info, dim, None, None, "in.")
+    req["cutoff"] = 0.0
+    mk = lambda tag, par, n: {"width": symx.real("%spd.%s" % (tag, par)), "npts": n,
+                              "nsigmas": symx.real("%snsigma.%s" % (tag, par))}
+    # a: final settings of A (request input in the two-parameter variant); b: settings of the
+    # evaluated record; hist: intermediate settings of A (pure history)
+    return {"req": req, "a": mk("in.", A + ".final", 2), "b": mk("in.", B or A, 3), "hist": mk("pre.", A, 4)}
+
+
+def shared_history(Model, op, A, B, R, W=None):
+    """Object to evaluate.  B given: two parameters of one model; B None: the
+    same parameter of two instances (the second one is evaluated)."""
+    m = Model()
+    sasview_set(m, R["req"])
+    watch = lambda par: W is not None and W.add("history:dispersion[%s]" % par, m.dispersion[par])
+    if B is not None:
+        if op == 0:
+            m.set_dispersion(A, _gauss(R["a"]))
+            m.set_dispersion(B, _gauss(R["b"]))
+            watch(B)
+            return m
+        g = _gauss(R["b"])
+        m.set_dispersion(A, g)
+        m.set_dispersion(B, g)
+        watch(B)
+        for d in (R["hist"], R["a"]):
+            for k, v in d.items():
+                m.setParam("%s.%s" % (A, k), v)
+        return m
+    if op == 0:
+        m.set_dispersion(A, _gauss(R["b"]))
+        watch(A)
+        return m
+    g = _gauss(R["b"])
+    first = Model()
+    sasview_set(first, R["req"])
+    first.set_dispersion(A, g)
+    m.set_dispersion(A, g)
+    watch(A)
+    for k, v in R["hist"].items():
+        first.setParam("%s.%s" % (A, k), v)
+    return m
+
+
+def unit_sasview_shared(cfg):
+    name, dim, A, B, entry = cfg
+    from sasmodels import sasview_model
+    label = "sasview-shared/%s/%s/%s/%s" % (name, dim, entry, "%s+%s" % (A, B) if B else "%s-of-two-instances" % A)
+    u = Unit(label, timeout_ms=60000)
+    install_shims()
+    km = KModel.get(name)
+    info = km.info
+    R = shared_reqs(info, dim, A, B)
+    op_t = z3.Int("pre.op")
+    A0 = [z3.Or(op_t == 0, op_t == 6)]
+
+    def fn():
+        _GW["calls"], _GW["length"], _GW["mode"] = 0, 3, "uf"
+        builds = []
+        Model = sasview_model.make_model_from_info(info)
+        with patched_build(lambda i: km.make_model(), builds):
+            op = int(Sym(op_t))
+            W = Watch()
+            m = shared_history(Model, op, A, B, R, W)
+            sink = []
+            with watched_kernel_args(W, sink):
+                r = run_entry(lambda: sasview_request(m, None, sym_q(dim), entry), W)
+        r["mesh"] = sink[-1][0] if sink else None
+        r["pre_state"] = 1 + op
+        r["notes"] = {"prefix": SHARED_OPS[op], "mesh_lengths": [len(e[1]) for e in r["mesh"]] if sink else None}
+        return r
+
+    ex = symx.Explorer(timeout_ms=20000, max_paths=600, abstract=True, int_range=8)
+    paths = ex.explore(fn, A0)
+    u.absorb(ex, paths)
+    u.reachable(label, A0)
+    u.functions("sasmodels.sasview_model.SasviewModel.set_dispersion", "sasmodels.weights.Dispersion.get_pars",
+                "sasmodels.weights.Dispersion.__init__", "sasmodels.sasview_model.SasviewModel.setParam",
+                "sasmodels.sasview_model.SasviewModel._get_weights")
+    ctx = dict(name=name, dim=dim, entry=entry, A=A, B=B, R=R, paths=paths, family="sasview-shared")
+    judge(u, label, paths, _o1_shared_handler(ctx), _o2_shared_handler(ctx), sample_ctx={"config": label},
+          is_ref=lambda p: p.result["pre_state"] == 1)
+    return u.r
+
+
+def real_shared(name, entry, A, B, R, q, ops=(0, 6)):
+    from sasmodels import sasview_model
+    outs, errs, changed = [], [], {}
+    qv = [np.asarray(v, dtype=float) for v in q]
+    for op in ops:
+        for fill in (3.25, 17.5):
+            Model = sasview_model._make_standard_model(name)
+            W = Watch()
+            try:
+                with heap_content(fill):
+                    m = shared_history(Model, op, A, B, R, W)
+                    outs.append(bits(sasview_request(m, None, qv, entry)))
+                errs.append(None)
+            except Exception as e:
+                outs.append(("raise:" + type(e).__name__).encode())
+                errs.append(repr(e))
+            for lab, phi, diffs, _l in W.check():
+                if not z3.is_true(z3.simplify(phi)):
+                    changed.setdefault(lab, []).extend(["op %d: %s" % (op, d) for d in diffs[:3]])
+    return outs, errs, changed
+
+
+def _shared_conc(ctx, mm):
+    q = [[0.0125, 0.125]] if ctx["dim"] == "1d" else [[0.0125], [0.03125]]
+    return concretize(mm, ctx["R"]), q
+
+
+def _o1_shared_handler(ctx):
+    def factory(rp):
+        def mk(i, j, hyps, phi):
+            def handler(m):
+                m2 = generic_model(hyps, [z3.Not(phi)], input_prefs(hyps + [phi], objs=[ctx["R"]])) or m
+                for mm in (m2, m):
+                    R, q = _shared_conc(ctx, mm)
+                    outs, errs, _ch = real_shared(ctx["name"], ctx["entry"], ctx["A"], ctx["B"], R, q)
+                    rep = len(set(outs)) > 1
+                    if rep:
+                        break
+                return {"reproduced": bool(rep),
+                        "key": "C11/O1/sasview-shared/%s/%s" % (ctx["entry"], "two-parameters" if ctx["B"] else "two-instances"),
+                        "what": "SasviewModel(%s).%s: with one Dispersion object given to set_dispersion twice, the "
+                                "result depends on later setParam('%s.*') calls for the other record (%s)"
+                                % (ctx["name"], ctx["entry"], ctx["A"], "parameter " + ctx["B"] if ctx["B"] else "second instance"),
+                        "inputs": {"replay": "sasview-shared", "model": ctx["name"], "dim": ctx["dim"], "entry": ctx["entry"],
+                                   "A": ctx["A"], "B": ctx["B"], "R": jsonable(R), "q": q},
+                        "detail": {"exceptions": errs, "identical": not rep}, "block": None}
+            return handler
+        return mk
+    return factory
+
+
+def _o2_shared_handler(ctx):
+    def mk(pi, wlabel, diffs, log):
+        def handler(m):
+            hyps = ctx["paths"][pi].constraints()
+            m2 = generic_model(hyps, [], input_prefs(hyps, objs=[ctx["R"]])) or m
+            R, q = _shared_conc(ctx, m2)
+            _o, errs, changed = real_shared(ctx["name"], ctx["entry"], ctx["A"], ctx["B"], R, q)
+            rep = wlabel in changed
+            return {"reproduced": bool(rep),
+                    "key": "C11/O2/sasview-shared/%s" % ("two-parameters" if ctx["B"] else "two-instances"),
+                    "what": "SasviewModel(%s): the stored %s is changed by setParam('%s.*') on %s: %s"
+                            % (ctx["name"], wlabel.split(":")[1], ctx["A"],
+                               "the same model" if ctx["B"] else "another instance", (changed.get(wlabel) or diffs)[:3]),
+                    "inputs": {"replay": "o2-sasview-shared", "model": ctx["name"], "dim": ctx["dim"],
+                               "entry": ctx["entry"], "A": ctx["A"], "B": ctx["B"], "R": jsonable(R), "q": q,
                                "watch": wlabel},
                     "detail": {"exceptions": errs}, "block": None}
         return handler
